@@ -566,7 +566,7 @@ class ASL_API Var
 	Removes one or more items, starting at the given index, if this is an array
 	*/
 	void removeAt(int i, int n = 1)
-	{if (_type == ARRAY && i >= 0 && n > 0 && i < _a->length() && i + n <= _a->length())
+	{if (_type == ARRAY && i >= 0 && n > 0 && i < _a->length() && n <= _a->length() - i)
 			_a->remove(i, n);
 	}
 
